@@ -55,13 +55,14 @@ LINKS = ['to-file-abs', 'to-file-rel', 'to-dir-abs', 'to-dir-rel', 'dangling', '
          'to-self-parent', 'to-trash-dir']
 SLASHES = ['', '/', '//', '///']
 VIA = ['direct', 'through-linked-parent', 'absolute', 'dot-prefix']
-LAYOUT = ['alt', 'top', 'home']
+LAYOUT = ['alt', 'top', 'home', 'fallback-cross-volume']
 
 
 def _case(lk, sl, via, layout):
     with rt.untraced():
         rt.begin((LINKS[lk], SLASHES[sl], VIA[via], LAYOUT[layout]))
         lay = LAYOUT[layout]
+        xdev = lay == 'fallback-cross-volume'
         base = '/h/w' if lay == 'home' else '/v/w'
         other = '/v/o' if lay == 'home' else '/h/o'
         d = base + '/d'
@@ -70,21 +71,23 @@ def _case(lk, sl, via, layout):
                  W.l(d + '/l2', '../td', 905)]
         if lay == 'top':
             nodes.append(W.d('/v/.Trash', 0o1777))
+        if xdev:  # no usable trash dir on /v: the home trash on another volume is used, by copy + delete
+            nodes += [W.f('/v/.Trash', 'x', 0o644, 906), W.f('/v/.Trash-1000', 'x', 0o644, 907)]
         k = LINKS[lk]
         tgt = {'to-file-abs': base + '/tf', 'to-file-rel': '../tf', 'to-dir-abs': base + '/td', 'to-dir-rel': '../td', 'dangling': 'nowhere',
                'to-link': 'l2', 'to-other-volume-dir': other + '/od', 'to-other-volume-file': other + '/of', 'to-self-parent': '.',
-               'to-trash-dir': ('/h/.local/share/Trash' if lay == 'home' else '/v/.Trash-1000')}[k]
+               'to-trash-dir': ('/h/.local/share/Trash' if lay in ('home', 'fallback-cross-volume') else '/v/.Trash-1000')}[k]
         nodes.append(W.l(d + '/lnk', tgt, 1000))
         if k == 'to-trash-dir':
             nodes += [W.d(tgt, 0o700), W.d(tgt + '/files', 0o700), W.d(tgt + '/info', 0o700)]
         world = W.W(mounts=K.MOUNTS, cwd=d, nodes=nodes)
         v = VIA[via]
         arg = {'direct': 'lnk', 'through-linked-parent': '../lp/lnk', 'absolute': d + '/lnk', 'dot-prefix': './lnk'}[v] + SLASHES[sl]
-        e = scen.env()
+        e = scen.env({'TRASH_ENABLE_HOME_FALLBACK': '1'} if xdev else None)
         label = '%s:slashes=%d:%s' % (k, sl, v)
         m = W.build_model(world)
         before = m.snap('/')
-        _, r = scen.run_model(None, [C('put', ['--', arg], e, cwd=d)], model=m)
+        _, r = scen.run_model(None, [C('put', (['--home-fallback'] if xdev else []) + ['--', arg], e, cwd=d)], model=m)
         r = r[0]
         after = m.snap('/')
         points_to_dir = k in ('to-dir-abs', 'to-dir-rel', 'to-link', 'to-other-volume-dir', 'to-self-parent', 'to-trash-dir')
@@ -108,30 +111,33 @@ def _case(lk, sl, via, layout):
         pay = added[pays[0]]
         if pay[1] != link_snap[1]:
             return rt.fail('C18:link-target-text-changed:' + label, '%r -> %r' % (link_snap[1], pay[1]))
-        if pay != link_snap:
+        if pay != link_snap and not xdev:  # (across devices shutil.move re-creates the link: known finding of C01)
             return rt.fail('C18:link-mtime-lost:' + label, 'link re-created instead of renamed (%r -> %r): silent cross-device move?' % (link_snap, pay))
         td = pays[0].rsplit('/files/', 1)[0]
         info = scen.sub(after, td + '/info/' + pays[0].rsplit('/', 1)[1] + '.trashinfo')
         ok, pth, _ = scen.spec_parse_info(info[2])
         full = pth if pth.startswith('/') else ('/v/' + pth)
-        if full != d + '/lnk':
+        if xdev and pth != d + '/lnk':
+            return rt.fail('C18:recorded-location:' + label, 'Path decodes to %r in the home trash' % (pth,))
+        if not xdev and full != d + '/lnk':
             return rt.fail('C18:recorded-location:' + label, 'Path decodes to %r, the link lives at %r' % (full, d + '/lnk'))
-        want_td = {'alt': '/v/.Trash-1000', 'top': '/v/.Trash/1000', 'home': '/h/.local/share/Trash'}[lay]
+        want_td = {'alt': '/v/.Trash-1000', 'top': '/v/.Trash/1000', 'home': '/h/.local/share/Trash', 'fallback-cross-volume': '/h/.local/share/Trash'}[lay]
         if td != want_td:
             return rt.fail('C18:wrong-trash-dir:' + label, 'link on %s went to %s (expected %s)' % (base, td, want_td))
         # restore recreates the same link
         _, rr = scen.run_model(None, [C('restore', [d], e, stdin=['0'], cwd='/')], model=m)
-        if rr[0]['exit'] != 0 or scen.sub(m.snap('/'), d + '/lnk') != link_snap:
+        back = scen.sub(m.snap('/'), d + '/lnk')
+        if rr[0]['exit'] != 0 or (back != link_snap and not (xdev and back is not None and back[:2] == link_snap[:2])):
             return rt.fail('C18:restore-does-not-recreate-link:' + label, repr(rr[0])[:300])
         return rt.ok()
 
 
 def w_main(lk: int, sl: int, via: int, layout: int) -> str:
     """
-    pre: 0 <= lk < 10 and 0 <= sl < 4 and 0 <= via < 4 and 0 <= layout < 3
+    pre: 0 <= lk < 10 and 0 <= sl < 4 and 0 <= via < 4 and 0 <= layout < 4
     post: _ == ''
     """
-    return _case(rt.sel(lk, 10), rt.sel(sl, 4), rt.sel(via, 4), rt.sel(layout, 3))
+    return _case(rt.sel(lk, 10), rt.sel(sl, 4), rt.sel(via, 4), rt.sel(layout, 4))
 
 
 def obligations(tier):
@@ -139,5 +145,5 @@ def obligations(tier):
         CH('K_location_only_parent_resolved', MOD, 'k_location', timeout=240, engine='K', regime='traced',
            encodes=['OriginalLocation.for_file', 'Fs.parent_realpath2'], stubs=['realpath -> recorder'], bounds='path: any str 1<=len<=6'),
         CH('W_link_x_slashes_x_via_x_layout', MOD, 'w_main', timeout=900, engine='W', regime='selector',
-           encodes=K.PUT_FUNCS + K.RESTORE_FUNCS, stubs=K.STUBS, bounds='10 link kinds x 0-3 trailing slashes x 4 spellings x 3 layouts'),
+           encodes=K.PUT_FUNCS + K.RESTORE_FUNCS, stubs=K.STUBS, bounds='10 link kinds x 0-3 trailing slashes x 4 spellings x 4 layouts (incl. cross-volume via the home fallback)'),
     ]
